@@ -25,7 +25,7 @@ RULE = ('cases = (typed grammar TEXT, start rule, input): grammars of 2-6 rules 
         'leaf rules, untyped pass-through rules, bodies with and without named elements, typed rules called '
         'directly, in optionals, closures, joins/gathers, groups, nested closures (lists of lists), under '
         'overrides, inside untyped rules returning dicts, guarded direct recursion, plus random C01-generator '
-        'bodies; slices: fresh (class names unique to the case), collide (class names from a 5-name pool shared '
+        'bodies; slices: fresh (class names unique to the case), conflict (one class declared by two rules with DIFFERENT base chains and different named elements: judged on attributes/values only), collide (class names from a 5-name pool shared '
         'by all cases of the process, chains redrawn per case), shared (two rules declaring one class), hostile '
         '(element names meeting the node API / AST key renaming); inputs derived from the grammar, ~15% mutated. '
         'non-trivial = the plain parse ACCEPTED and the expected tree contains at least one typed node, distinct '
@@ -63,7 +63,9 @@ FLOORS = {
               'dispatch_spelling:camel': 6000, 'chain_len:2': 6500, 'chain_len:3': 3500,
               'builtin_ok:int': 1200, 'builtin_ok:float': 1200, 'builtin_ok:str': 1200, 'builtin_ok:bool': 1200,
               'builtin_expected:list': 1000, 'collide_cases': 220, 'stale_declarations_seen': 330,
-              'nodes_without_names': 10000, 'nodes_with_names': 9000, 'max_depth': 3},
+              'nodes_without_names': 10000, 'nodes_with_names': 9000, 'max_depth': 3,
+              'slice:conflict': 100, 'conflict_attrs_judged:synth': 1100, 'conflict_attrs_judged:module': 1100,
+              'conflict_mro:has-the-other-chain': 300},
     'thorough': {'accepted': 100000, 'distinct_nontrivial': 90000, 'nodes_expected': 550000,
                  'route_runs:synth': 140000, 'route_runs:module': 140000, 'route_runs:api': 11000,
                  'child_links_checked': 390000, 'child_in:nested-list': 150000, 'child_in:dict': 23000,
@@ -71,7 +73,8 @@ FLOORS = {
                  'walker_runs:postorder': 210000, 'dispatch_via:declared-base': 80000,
                  'chain_len:3': 100000, 'builtin_ok:int': 35000, 'builtin_ok:float': 35000, 'builtin_ok:str': 35000,
                  'builtin_ok:bool': 30000, 'builtin_expected:list': 33000, 'collide_cases': 5500,
-                 'stale_declarations_seen': 10000, 'max_depth': 4},
+                 'stale_declarations_seen': 10000, 'max_depth': 4,
+                 'slice:conflict': 2500, 'conflict_attrs_judged:synth': 27000, 'conflict_attrs_judged:module': 27000},
 }
 PEAK_COUNTERS = ('max_depth', 'max_nodes_in_tree')
 
@@ -88,12 +91,14 @@ def plan(tier, seed):
 
 def pick_slice(rng):
     r = rng.random()
-    if r < 0.58:
+    if r < 0.50:
         return 'fresh'
-    if r < 0.80:
+    if r < 0.70:
         return 'collide'
-    if r < 0.90:
+    if r < 0.80:
         return 'shared'
+    if r < 0.90:
+        return 'conflict'
     return 'hostile'
 
 
@@ -305,7 +310,8 @@ def check_grammar(acc, g, meta, inputs_fn, origin, prelude=None):
                 continue
             mv = res[1]
             judge = M.Judge('module' if route == 'module' else 'synth', stale_names=stale, module=module,
-                            own_names=own_names, shared_heads=shared_heads)
+                            own_names=own_names, shared_heads=shared_heads,
+                            conflict_heads=meta.get('conflict_heads', ()))
             if exact:
                 judge.corr(mv, tagged[1])
                 acc.count('exact_comparisons')
@@ -332,14 +338,17 @@ def check_grammar(acc, g, meta, inputs_fn, origin, prelude=None):
         M.drop_module(mod)
 
 
-def make_inputs(rng, n):
+def make_inputs(rng, n, extra_starts=None):
     def fn(g):
         out = []
         starts = ['start']
         if len(g.rules) > 2 and rng.random() < 0.3:
             starts.append(rng.choice(g.rules[1:-1]).name)
+        for s in extra_starts or ():     # conflict slice: the second rule declaring the class
+            if s not in starts:
+                starts.append(s)
         for s in starts:
-            for t in M.gen_inputs(rng, g, s, n if s == 'start' else 2):
+            for t in M.gen_inputs(rng, g, s, n if s == 'start' or s in (extra_starts or ()) else 2):
                 out.append((s, t))
         return out
     return fn
@@ -350,7 +359,7 @@ def run_shard(desc, acc):
         rng = random.Random(h64('C07', desc['seed'], desc['shard'], i))
         slice_ = pick_slice(rng)
         g, meta = M.gen_typed_grammar(rng, i, slice_)
-        check_grammar(acc, g, meta, make_inputs(rng, desc['inputs']),
+        check_grammar(acc, g, meta, make_inputs(rng, desc['inputs'], meta.get('extra_starts')),
                       {'shard': desc['shard'], 'i': i, 'seed': desc['seed']})
 
 
